@@ -148,6 +148,7 @@ impl Hub {
             .name("hub".into())
             .stack_size(8 << 20)
             .spawn(move || -> Result<bool, String> {
+                let scm_fds: Vec<RawFd> = hub_fds.iter().map(|x| x.3).collect();
                 let built = catch_unwind(AssertUnwindSafe(|| -> Result<CommandHub, String> {
                     let mut config = ConfigBuilder::new(FileConfig::default(), &cfg_path)
                         .into_config()
@@ -185,10 +186,18 @@ impl Hub {
                         return Err(m);
                     }
                 };
-                match catch_unwind(AssertUnwindSafe(|| hub.run())) {
+                let res = match catch_unwind(AssertUnwindSafe(|| hub.run())) {
                     Ok(upgrading) => Ok(upgrading),
                     Err(p) => Err(vh::util::panic_message(p)),
+                };
+                drop(hub);
+                // ScmSocket does not own its descriptor: close the hub side of the scm pairs ourselves
+                for fd in scm_fds {
+                    unsafe {
+                        libc::close(fd);
+                    }
                 }
+                res
             })
             .map_err(|e| e.to_string())?;
         match rx.recv_timeout(Duration::from_secs(20)) {
